@@ -62,6 +62,20 @@ VARIANTS = [
     ("C03", "mutant", P + "irregularlybin.py", "        weights = weights.copy()\n        weights[selection] = 0.0", "        weights = weights.copy()\n        weights[selection] = 0.0\n        newentries = weights.sum()", "entries from the masked weights"),
     ("C03", "neutral", P + "sum.py", "        numpy.bitwise_not(selection, selection)\n        numpy.bitwise_and(selection, weights > 0.0, selection)\n        q = q[selection]", "        selection = numpy.bitwise_not(selection)\n        numpy.bitwise_and(selection, weights > 0.0, selection)\n        q = q[selection]", "fresh mask instead of in-place"),
     ("C03", "mutant", P + "fraction.py", "        w = w * weights\n        w[numpy.isnan(w)] = 0.0\n        w[w < 0.0] = 0.0\n", "        w = numpy.array(w, dtype=numpy.float64)\n        w[numpy.isnan(w)] = 0.0\n        w[w < 0.0] = 0.0\n        w = w * weights\n", "inf * 0 weight reaches the numerator as NaN"),
+    # ---------------- round f additions
+    ("C04", "mutant", P + "bag.py", '                        if range == "S" and isinstance(nv["v"], basestring):\n', '                        if False and isinstance(nv["v"], basestring):\n', "string labels decoded as numbers whatever the range"),
+    ("C04", "neutral", P + "bag.py", '                        if range == "S" and isinstance(nv["v"], basestring):\n', '                        if isinstance(nv["v"], basestring) and range == "S":\n', "conjuncts swapped"),
+    ("C04", "mutant", P + "categorize.py", "            self.contentType = value.name\n", "            self.contentType = type(value).__name__\n", "content type from the Python class name"),
+    ("C07", "neutral", P + "bag.py", "            for value, count in other.values.items():\n                if value in self.values:\n                    self.values[value] += count\n                else:\n                    self.values[value] = count\n            return self", "            for value, count in other.values.items():\n                self.values[value] = self.values.get(value, 0.0) + count\n            return self", "get with the neutral default"),
+    ("C07", "mutant", P + "bag.py", "            for value, count in other.values.items():\n                if value in self.values:\n                    self.values[value] += count\n                else:\n                    self.values[value] = count\n            return self", "            for value, count in other.values.items():\n                self.values[value] = self.values.get(value, 1.0) + count\n            return self", "get with a non-neutral default"),
+    ("C09", "mutant", P + "stack.py", "all(numeq(c1, c2) and v1 == v2 for", "all(numeq(c1, c2) and v1.entries == v2.entries for", "children compared by entries only"),
+    ("C13", "neutral", P + "bin.py", "            entries = [self.values[self.bin(x)].entries if self.bin(x) in self.indexes else 0.0 for x in xvalues]", "            found = [self.bin(x) for x in xvalues]\n            entries = [self.values[i].entries if i >= 0 else 0.0 for i in found]", "index looked up once, sentinel excluded by i >= 0"),
+    ("C13", "mutant", P + "bin.py", "            entries = [self.values[self.bin(x)].entries if self.bin(x) in self.indexes else 0.0 for x in xvalues]", "            found = [self.bin(x) for x in xvalues]\n            entries = [self.values[i].entries if i <= self.num else 0.0 for i in found]", "sentinel not excluded"),
+    ("C13", "neutral", P + "sparselybin.py", "            index * self.binWidth + self.origin,\n            (index + 1) * self.binWidth + self.origin,", "            self.origin + index * self.binWidth,\n            self.origin + (index + 1) * self.binWidth,", "commuted edge expression"),
+    ("C13", "mutant", P + "sparselybin.py", "            index * self.binWidth + self.origin,\n            (index + 1) * self.binWidth + self.origin,", "            index * self.binWidth + self.origin,\n            index * self.binWidth + self.origin + self.binWidth,", "upper edge by adding the width"),
+    ("C17", "neutral", "histogrammar/util.py", "                    context.update(math.__dict__)\n", "                    context.update({k: v for k, v in math.__dict__.items() if not k.startswith(\"__\")})\n", "dunder names of math filtered"),
+    ("C17", "mutant", "histogrammar/util.py", "                    context.update(math.__dict__)\n", "                    context.update({k: v for k, v in math.__dict__.items() if not isinstance(v, float)})\n", "constants of math filtered"),
+    ("C16", "mutant", P + "categorize.py", "        return hash((self.entries, self.quantity, tuple(sorted(self.bins.items()))))", "        return hash((self.entries, self.quantity, self.value, tuple(sorted(self.bins.items()))))", "template hashed"),
     # ---------------- C04
     ("C04", "mutant", P + "bin.py", "out = Bin.ed(low, high, entries, values, underflow, overflow, nanflow)", "out = Bin.ed(high, low, entries, values, underflow, overflow, nanflow)", "low/high swapped by the reader"),
     ("C04", "mutant", P + "sum.py", '{"entries": floatToJson(self.entries), "sum": floatToJson(self.sum)}', '{"entries": floatToJson(self.entries), "sum": self.sum}', "sum not encoded"),
